@@ -363,6 +363,10 @@ class TermAnalysis:
                         elif want == 'tp':
                             if not st_err and not P and not E and ('tp', 0) not in facts:
                                 reason = 'Ok without consuming'
+                        elif want == 'tps':
+                            # Ok(Some(_)) / Ok(true) implies progress; the end marker Ok(None)/Ok(false) is free
+                            if not st_err and not P and not E and ('tp', 0) not in facts and ('none', 0) not in facts:
+                                reason = 'Ok(Some) without consuming'
                         elif want == 't1':
                             if st_err or not st_ok:
                                 # error (or unknown) return
